@@ -126,6 +126,17 @@ CURATED_TEXT = {
 'choice_ret_committed': "token A B C D; start s; s: r D; r: A* (B ~ & C ^ / B D);",
 'choice_ret_second': "token A B C D; start s; s: r D; r: A (B C / & B ^);",
 'choice_ret_inner_rule': "token A B C D; start s; s: (r C / r D) D; r: A & B;",
+'ret_after_call_loop': "token A B C D E; start s; s: x E; x: A y & C D; y: B (D B)*;",
+'ret_after_opt': "token A B C D E; start s; s: x E; x: A [B] & C D;",
+'ret_after_star': "token A B C D E; start s; s: x E; x: A B* & C D;",
+'ret_after_plus_group': "token A B C D E; start s; s: x E; x: A (B D)+ & C D;",
+'ret_after_nullable_call': "token A B C D E; start s; s: x E; x: A y & C D; y: [B];",
+'commit_after_call': "token A B C D E; start s; s: x E; x: (A y ~ C / A E) D; y: B (D B)*;",
+'commit_after_opt': "token A B C D E; start s; s: x E; x: (A [B] ~ C / A E) D;",
+'commit_after_star': "token A B C D E; start s; s: x E; x: (A B* ~ C / A E) D;",
+'ret_after_call_shared': "token A B C D E G; start s; s: x E; x: A y & C D | G y D; y: B (E B)*;",
+'ret_after_opt_shared': "token A B C D E G; start s; s: x E; x: A y & C D | G y D; y: B [E];",
+'commit_after_call_shared': "token A B C D E G; start s; s: x E; x: (A y ~ C / A E) D | G y D; y: B (E B)*;",
 'ret_after_rule': "token A B C; start s; s: x*; x: y & B; y: A;",
 'ret_in_choice_after_token': "token A B C D E; start s; s: x E; x: (A & B D / A E) C;",
 'ret_in_loop_body': "token A B C; start s; s: x C; x: A (B & A)*;",
@@ -322,6 +333,7 @@ PRODUCT_FEATURES = {
     'assert': ('!1 B', ''), 'ret': ('& B', ''), 'predopt': ('[?1 B]', ''), 'predstar': ('(?1 B)*', ''), 'ptrue': ('[?t B]', ''),
     'renameback': ('B @rn [C @x]', ''), 'commitalt': ('(B ~ | C)', ''), 'commit': ('B ~ C', ''), 'createouter': ('<1 B [C 1>mk] [B 1>mk2]', ''),
     'createanon': ('<1 B [C 1>]', ''), 'createanonloop': ('<1 B (C 1>)*', ''), 'predalt': ('(?1 B C | C)', ''), 'predalt2': ('(?1 B | ?2 C B)', ''),
+    'retaftercall': ('y & C', 'y: B (G B)*;'), 'retafteropt': ('[B] & C', ''), 'retafterstar': ('B* & C', ''),
     'call': ('y', 'y: B [C];'), 'callelided': ('z', 'z^: B | C;'), 'callnullable': ('w', 'w: [B] C*;'),
 }
 def product_family():
@@ -355,6 +367,7 @@ def pair_family(all_pairs=False, seed=0):
             s2 = {'y': 'yy', 'z': 'zz', 'w': 'ww'}.get(s2, s2)
             for cn, ctx in (('seq', 's: x E; x: A {F1} {F2} D;'), ('elided', 's: x E; x^: A {F1} {F2} D;')):
                 if cn == 'elided' and (not node_pair or (k + seed) % 2): continue
+                if cn == 'seq' and 'whole' in (f1, f2): continue      # whole-rule creation in a non-elided rule emits code that does not compile (C11, not claimed)
                 body = f'{ctx.replace("{F1}", s1).replace("{F2}", s2)} {e1} {e2}'
                 txt = 'token ' + ' '.join(t for t in 'ABCDEGHK' if re.search(r'\b' + t + r'\b', body)) + f'; start s; {body}'
                 try: g = parse_simple(txt, name=f'pair_{cn}_{f1}_{f2}')
